@@ -173,19 +173,31 @@ def run(ctx):
         # one-shot invariants whose first violation (BFS => shortest) is a witness schedule into each
         # race window / to each property the faithful design still violates (known findings)
         jobs.append((('MCCounter',), dict(files={'MCCounter.tla': mcw},
-                                          cfg_text=mc_cfg(f, invariants=['TypeOK', 'UpperBound', 'NoDeadlock'] + sorted(onames)),
+                                          cfg_text=mc_cfg(f, invariants=['TypeOK', 'UpperBound', 'NoWrap', 'NoDeadlock'] + sorted(onames)),
                                           label='Counter[%s] exhaustive' % f['name'], timeout=3000, workers=1, extra=['-continue'])))
         meta.append((f, 'exhaustive'))
         # (3) random walks of the model
         jobs.append((('MCCounter',), dict(files={'MCCounter.tla': mc}, cfg_text=mc_cfg(f, view=False), simulate={'num': ctx.pick(60, 400), 'file': True},
                                           depth=400, label='Counter[%s] simulate' % f['name'], count=False)))
         meta.append((f, 'simulate'))
+    if ctx.thorough():
+        # liveness: under weak fairness of every task no call waits forever (faults of the known finding F1 aside:
+        # a faulted task counts as done)
+        for f in small[:3]:
+            jobs.append((('MCCounter',), dict(files={'MCCounter.tla': mc_module(f)}, cfg_text=mc_cfg(f, spec='FairSpec', props=['Termination'], view=False),
+                                              label='Counter[%s] liveness' % f['name'], timeout=3000, workers=4)))
+            meta.append((f, 'liveness'))
     results_tlc = ctx.tlc_many(jobs, par=12)
     for (f, what), r in zip(meta, results_tlc):
         if what == 'simulate':
             for fn in ctx.sim_files(r):
                 states = [s for (_a, _b, s) in tlaval.read_simulate(fn)]
                 add_run(f, schedule_of(states), 'rr', 'simulate')
+            continue
+        if what == 'liveness':
+            model_results['%s/Termination' % f['name']] = 'holds' if r.ok else 'VIOLATED in the model: %s' % r.error
+            if not r.ok:
+                ctx.warn('model: liveness %s: %s' % (f['name'], r.error))
             continue
         model_results[f['name']] = {'distinct': r.distinct, 'generated': r.generated}
         for (name, tr) in tlaval.read_all_traces(r.out):
